@@ -197,7 +197,7 @@ KillsAtMaster(t) == IF t \in MasterTasks THEN MasterOf(t).kills ELSE 0
 
 \* Post(e) on the facts of a quiescent Snapshot
 PostViol(e) ==
-    Soft("PostListed", e \notin SnapEnvs, e)
+    Soft("PostListed", e \notin SnapEnvs, <<e, mret[e]>>)
   + Soft("PostOwned", \A t \in DOMAIN mown : mown[t] # e, <<e, {t \in DOMAIN mown : mown[t] = e}>>)
   + Soft("PostOwnedApi", \A t \in SnapTasks : SnapTask(t).owner # e, <<e, {t \in SnapTasks : SnapTask(t).owner = e}>>)
   + Soft("PostKilled",
